@@ -5,6 +5,8 @@ from vlib.runner import Spec, Suite
 HARNESS = ("h_exec", ["h_exec.cpp"], {})
 
 EV = re.compile(r"^(\d+)\.(\d+)@(\d+)$")
+JOB = re.compile(r"^\{([wp])$")
+JOBEND = re.compile(r"^\}([01])$")
 
 
 def parse_act(tok):
@@ -16,10 +18,15 @@ def parse_act(tok):
         return [int(x) for x in s.split(",") if x.isdigit() and len(x) <= 6]
     if k in ("wake", "gather") and len(p) in (2, 3):
         rev = k == "gather"
-        mode = "a" if p[1] == "a" else "d"
+        mode = "a" if p[1] == "a" else ("p" if p[1] == "p" and not rev else "d")
         return ("wake", mode, rev, ids(p[2]) if len(p) == 3 else [], None)
     if k == "detach" and len(p) == 3:
-        return ("wake", "a" if p[1] == "a" else "d", False, ids(p[2]), None)
+        return ("wake", "a" if p[1] == "a" else ("p" if p[1] == "p" else "d"), False, ids(p[2]), None)
+    if len(p) == 1 and k in ("parkp", "hop", "hopc"):
+        return (k, None, False, [], None)
+    if len(p) == 2 and k in ("startc", "spawn", "wakep") and p[1].isdigit() and len(p[1]) <= 6:
+        # startc = async::operator(); spawn = coroutine entered through coro_queue::initial_awaiter (nobody holds a future)
+        return ({"startc": "start"}.get(k, k), None, False, [], int(p[1]))
     if len(p) == 1 and k in ("park", "parkn", "pause", "swap", "end", "enter", "leave", "leavex"):
         # leavex: the callback of install_queue_and_call throws; the statement does not care how the block is left
         return ({"swap": "pause", "leavex": "leave"}.get(k, k), None, False, [], None)
@@ -55,6 +62,9 @@ class TraceChecker:
         self.returned = False  # the running chain has returned to its resumer (park / future await / co_return with
                                # nobody awaiting): with a nested start() pending, its caller must continue now
         self.blocks = 0
+        self.jobs = []        # work handed to other threads (pool worker, parallel thread), oldest first: lists of ids
+        self.thread = "m"     # whose activation is traced right now: m main thread, w pool worker, p new thread
+        self.job_runs = 0
         self.resumes = {}
         self.maxdepth = 0
         self.queued_resumes = 0
@@ -156,7 +166,13 @@ class TraceChecker:
         kind, mode, rev, ids, d = self.act_of(c, k)
         if kind == "wake":
             hs = self.effective(ids, rev)
-            if mode == "a" and hs:
+            if mode == "p":
+                for h in hs:
+                    self.status[h] = "posted"
+                if hs:
+                    self.jobs.append(hs)
+                self.must_continue = (c, "parallel_resume() hands the suspend point to a new thread")
+            elif mode == "a" and hs:
                 out = hs[-1]
                 self.enqueue(hs[:-1])
                 self.status[out] = "direct"
@@ -170,14 +186,31 @@ class TraceChecker:
             self.runner = None
             # `parkn` leaves through resume_handle_next(): the queue head, if any, by symmetric transfer
             self.returned = kind == "park" or not self.queue
+        elif kind == "parkp":
+            self.status[c] = "pparked"
+            self.runner = None
+            self.returned = True
+        elif kind == "wakep":
+            if self.st(d) == "pparked":
+                self.status[d] = "posted"
+                self.jobs.append([d])
+            self.must_continue = (c, "a coroutine awaiting through parallel() is handed to a new thread, not resumed here")
+        elif kind == "hop" or (kind == "hopc" and self.thread == "w"):
+            self.status[c] = "posted"
+            self.jobs.append([c])
+            self.runner = None
+            self.returned = True
+        elif kind == "hopc":
+            self.must_continue = (c, "co_await thread_pool::current() outside a pool thread is a no-op")
         elif kind == "pause":
             self.pause_snap[c] = set(self.qseq)
             self.enqueue([c])
             self.runner = None
-        elif kind == "start":
+        elif kind in ("start", "spawn"):
             if self.st(d) == "fresh":
                 self.status[d] = "direct"
-                self.starter[d] = c
+                if kind == "start":
+                    self.starter[d] = c
                 self.status[c] = "stacked"
                 self.nest.append(c)
                 self.runner = None
@@ -215,7 +248,17 @@ class TraceChecker:
     # -- ordinary code ----------------------------------------------------------------------------------
     def main_act(self, act):
         kind, mode, rev, ids, d = act
-        if kind == "wake":
+        if kind == "wake" and mode == "p":
+            hs = self.effective(ids, rev)
+            for h in hs:
+                self.status[h] = "posted"
+            if hs:
+                self.jobs.append(hs)
+        elif kind == "wakep":
+            if self.st(d) == "pparked":
+                self.status[d] = "posted"
+                self.jobs.append([d])
+        elif kind == "wake":
             hs = self.effective(ids, rev)
             if self.blocks:
                 self.enqueue(hs)
@@ -223,10 +266,11 @@ class TraceChecker:
                 for h in hs:
                     self.status[h] = "looped"
                 self.loop = hs
-        elif kind == "start":
+        elif kind in ("start", "spawn"):
             if self.st(d) == "fresh":
                 self.status[d] = "direct"
-                self.starter[d] = -1
+                if kind == "start":
+                    self.starter[d] = -1
                 if self.blocks:
                     self.nest.append("main")
         elif kind == "enter":
@@ -234,6 +278,23 @@ class TraceChecker:
         elif kind == "leave":
             if self.blocks:
                 self.blocks -= 1
+
+    def job_begin(self, where, kind):
+        """another thread takes its next job: it installs a queue of its own and resumes the handles of the job in order"""
+        self.back_in_main(where + " (before the other thread runs)", 0, False)
+        self.thread = kind
+        self.job_runs += 1
+        if not self.jobs:
+            self.flag("once", "%s: a thread ran a job although nothing was handed over" % where)
+            return
+        hs = self.jobs.pop(0)
+        for h in hs:
+            self.status[h] = "looped"
+        self.loop = list(hs)
+
+    def job_end(self, where, active):
+        self.back_in_main(where + " (job of the %s)" % ("pool worker" if self.thread == "w" else "new thread"), active, False)
+        self.thread = "m"
 
     def back_in_main(self, where, active, in_block):
         """control is back in ordinary code"""
@@ -287,6 +348,10 @@ def check_trace(case, out):
             m = EV.match(e)
             if m:
                 t.event(int(m.group(1)), int(m.group(2)), int(m.group(3)))
+            elif JOB.match(e):
+                t.job_begin(inp, JOB.match(e).group(1))
+            elif JOBEND.match(e):
+                t.job_end(inp, int(JOBEND.match(e).group(1)))
             elif e.startswith("REENTRY"):
                 t.flag("reentry", "%s: coroutine resumed while it was already running" % e)
             elif e.startswith("SPURIOUS"):
@@ -297,10 +362,18 @@ def check_trace(case, out):
         flags = dict(x.split("=", 1) for x in hw if "=" in x)
         active = int(flags.get("a", "-1"))
         t.back_in_main(inp, active, t.blocks > 0)
+        cb = flags.get("b")
+        if cb is not None:
+            want = "1" if (t.blocks == 0 or not t.queue) else "0"
+            if cb != want:
+                t.flag("drain", "%s: can_block()=%s with %d coroutine(s) queued on this thread%s" % (
+                    inp, cb, len(t.queue), "" if t.blocks else ", outside every activation"))
         if w[0] == "end":
             if flags.get("q") != "0":
                 t.flag("drain", "%s handle(s) left in the thread's ready queue at the end" % flags.get("q"))
-            susp = sum(1 for s in t.status.values() if s in ("parked", "waiting"))
+            if t.jobs or any(s == "posted" for s in t.status.values()):
+                t.flag("once", "coroutine(s) handed to another thread were never resumed there: %s" % t.jobs)
+            susp = sum(1 for s in t.status.values() if s in ("parked", "waiting", "pparked"))
             if flags.get("susp") != str(susp):
                 t.flag("drain", "%s coroutines alive at the end, %d are suspended on something" % (flags.get("susp"), susp))
             res = [int(x) for x in flags.get("res", "").split(",") if x.isdigit()]
@@ -328,26 +401,34 @@ class ExecSuite(Suite):
             if r < 0.26:
                 k = rng.choice([1, 1, 2, 2, 3, 4])
                 ids = [rng.choice(others) for _ in range(k)]
-                mode = rng.choice("ddddaaaarx")
+                mode = rng.choice("ddddaaaarxp")
                 if rng.random() < 0.12:
                     acts.append("gather:%s:%s" % ("a" if mode == "a" else "d", ",".join(map(str, ids))))
                 else:
                     acts.append("wake:%s:%s" % (mode, ",".join(map(str, ids))))
-            elif r < 0.40:
+            elif r < 0.38:
                 acts.append("park")
+            elif r < 0.41:
+                acts.append("parkp")
             elif r < 0.45:
                 acts.append("parkn")
             elif r < 0.58:
                 acts.append("pause")
-            elif r < 0.62:
+            elif r < 0.61:
                 acts.append("swap")
+            elif r < 0.645:
+                acts.append(rng.choice(["hop", "hop", "hopc"]))
+            elif r < 0.665:
+                acts.append("wakep:%d" % rng.choice(others))
             elif r < 0.74 and spawn_pool:
                 d = spawn_pool.pop(rng.randrange(len(spawn_pool)))
                 acts.append("detach:%s:%d" % (rng.choice("ddaar"), d))
             elif r < 0.83 and spawn_pool:
                 d = spawn_pool.pop(rng.randrange(len(spawn_pool)))
-                acts.append("start:%d" % d)
-                started.append(d)
+                kw = rng.choice(["start", "start", "startc", "spawn"])
+                acts.append("%s:%d" % (kw, d))
+                if kw != "spawn":
+                    started.append(d)
             elif r < 0.90 and spawn_pool:
                 d = spawn_pool.pop(rng.randrange(len(spawn_pool)))
                 acts.append("call:%d" % d)
@@ -388,7 +469,9 @@ class ExecSuite(Suite):
             k = rng.choice([1, 1, 2, 3, n])
             ids = rng.sample(range(n), min(k, n))
             kw = "gather" if rng.random() < 0.1 else "wake"
-            mode = "d" if kw == "gather" else rng.choice("dddrx")
+            mode = "d" if kw == "gather" else rng.choice("dddrxp")
+            if rng.random() < 0.12:
+                return "wakep:%d" % rng.randrange(n)
             return "%s:%s:%s" % (kw, mode, ",".join(map(str, ids)))
 
         if shape in ("block", "mixed") and rng.random() < 0.8:
@@ -397,7 +480,7 @@ class ExecSuite(Suite):
         for r in range(roots):
             x = rng.random()
             if x < 0.5:
-                main.append("start:%d" % r)
+                main.append("%s:%d" % (rng.choice(["start", "start", "startc", "spawn"]), r))
             elif x < 0.8:
                 main.append("detach:%s:%d" % (rng.choice("ddrx"), r))
             else:
@@ -423,6 +506,9 @@ class ExecSuite(Suite):
             depth = 0
             if rng.random() < 0.7:
                 main.append(wake_round())
+        if rng.random() < 0.5:
+            main += ["wakep:%d" % c for c in rng.sample(range(n), min(n, rng.randint(1, 3)))]
+            main.append(wake_round())
         if rng.random() < 0.15:
             # late script extension (ignored by coroutines that already finished)
             lines_extra = ["a %d pause" % rng.randrange(n)]
@@ -516,7 +602,7 @@ class ExecSuite(Suite):
 
     def stats(self, cases, outs):
         acts, shapes, vias = {}, {}, {}
-        ncoro, nevents, maxdepth, queued, nested, blocks = [], 0, 0, 0, 0, 0
+        ncoro, nevents, maxdepth, queued, nested, blocks, jobs = [], 0, 0, 0, 0, 0, 0
         for c in cases:
             hdr = c["lines"][0].split()
             vias[hdr[3] if len(hdr) > 3 else "promise"] = vias.get(hdr[3] if len(hdr) > 3 else "promise", 0) + 1
@@ -541,6 +627,7 @@ class ExecSuite(Suite):
                 maxdepth = max(maxdepth, t.maxdepth)
                 queued += t.queued_resumes
                 nested += t.nested
+                jobs += t.job_runs
             except Exception:
                 pass
         hist = {}
@@ -549,7 +636,11 @@ class ExecSuite(Suite):
         return {"acts": dict(sorted(acts.items())), "wake_sources": vias,
                 "coroutines_per_program": {str(k): v for k, v in sorted(hist.items())},
                 "acts_executed": nevents, "resumptions_from_ready_queue": queued, "nested_starts_in_coroutine_mode": nested,
-                "install_blocks_entered": blocks, "max_nesting_depth": maxdepth}
+                "install_blocks_entered": blocks, "max_nesting_depth": maxdepth,
+                "jobs_run_by_other_threads": jobs,
+                "spellings": {"async::start(promise) for fresh targets with id % 3 == 1": "in every wake/detach",
+                              "start = async::start(), startc = async::operator(), spawn = coro_queue::initial_awaiter": "see acts",
+                              "swap = coro_queue::swap_coroutine + resume_handle": "see acts"}}
 
 
 class C05(Spec):
